@@ -12,7 +12,8 @@ K_COMM2 = ("ncclKernel_AllGather_RING_LL_Sum_int8_t", "kernel", "COMMUNICATION")
 K_MEMCPY = ("Memcpy DtoD (Device -> Device)", "gpu_memcpy", "MEMORY")
 K_MEMCPY2 = ("Memcpy HtoD (Pageable -> Device)", "gpu_memcpy", "MEMORY")
 K_MEMSET = ("Memset (Device)", "gpu_memset", "MEMORY")
-KCLASS = {"C": K_COMP, "c": K_COMP2, "N": K_COMM, "n": K_COMM2, "M": K_MEMCPY, "m": K_MEMCPY2, "S": K_MEMSET}
+K_OTHER = ("Stream Sync", "cuda_sync", "OTHER")        # a sync event on a real stream: neither of the three classes
+KCLASS = {"Y": K_OTHER, "C": K_COMP, "c": K_COMP2, "N": K_COMM, "n": K_COMM2, "M": K_MEMCPY, "m": K_MEMCPY2, "S": K_MEMSET}
 LAUNCH_FOR = {"kernel": "cudaLaunchKernel", "gpu_memcpy": "cudaMemcpyAsync", "gpu_memset": "cudaMemsetAsync"}
 
 
